@@ -605,3 +605,52 @@ func runC12(c *hx.Ctx) *hx.Outcome {
 	}
 	return o
 }
+
+// ---- C07 (library level): framing, decoding and display at both log levels ---------------
+
+func runC07(c *hx.Ctx) *hx.Outcome {
+	o := &hx.Outcome{}
+	segs, wire := hostileStream(c, o)
+	cfg := genPipeCfg(c.T, len(wire))
+	o.ScenHash = gnss.Hash(wire)
+	level := slog.LevelDebug
+	if c.T.SBool(1, 2) {
+		level = slog.LevelInfo
+		o.Probe("log-level-info")
+	} else {
+		o.Probe("log-level-debug")
+	}
+	if c.Detail {
+		o.Sample = sampleOf(segs, wire, nil, cfg)
+	}
+	pr := runPipe(c, wire, cfg, level, true)
+	o.Verdict, o.Strategy = pr.verdict, pr.strategy
+	if len(pr.panics) > 0 {
+		o.Fail("C07/panic", "framing/decoding/display panicked: %s | wire %s", firstLine(pr.panics[0]), hexShort(wire))
+		return o
+	}
+	if pr.verdict == rt.Budget || pr.closedSeen == 0 {
+		o.Fail("C07/hang", "pipeline did not finish: verdict %s, %d steps, live %v", pr.verdict, pr.steps, pr.live)
+	}
+	// single-frame decoding of every segment, too
+	for _, sg := range segs {
+		h := rtcm.New(startTime, level)
+		m, _, pan := safeGetMessage(h, append([]byte(nil), sg.Bytes...))
+		if pan != "" {
+			o.Fail("C07/panic", "GetMessage panicked: %s on %s", pan, hexShort(sg.Bytes))
+		} else if m != nil {
+			func() {
+				defer func() {
+					if r := recover(); r != nil {
+						o.Fail("C07/panic", "String panicked: %v on %s", r, hexShort(sg.Bytes))
+					}
+				}()
+				if len(m.String()) == 0 {
+					o.Fail("C07/empty-display", "empty display text for %s", hexShort(sg.Bytes))
+				}
+			}()
+		}
+	}
+	o.Nontrivial = len(pr.msgs) > 0
+	return o
+}
